@@ -48,6 +48,8 @@ let nums (s : string) : M.n list =
 let coq_string_to_ocaml (l : M.byte list) : string =
   let b = Buffer.create 16 in List.iter (fun x -> Buffer.add_char b (Hashtbl.find char_tab x)) l; Buffer.contents b
 
+let all_u16 : M.n list Lazy.t = lazy (List.init 65536 n_of_int)
+
 let dtype_name (d : M.dtype) : string =
   match d with
   | M.DString -> "String" | M.DSigned -> "SignedDataNumber" | M.DUnsigned -> "UnsignedDataNumber"
@@ -96,7 +98,7 @@ let () =
          | ["A"; k; vs] ->
              let k = int_of_string k in
              let (s, _) = get k in
-             Hashtbl.replace parsers k (s, nums vs)
+             Hashtbl.replace parsers k (s, if vs = "*" then Lazy.force all_u16 else nums vs)
          | [("B" | "F") as op; k; hex] ->
              let k = int_of_string k in
              let (s, allowed) = get k in
